@@ -189,6 +189,7 @@ pub fn main(args: &[String]) -> i32 {
     let out_path: Option<String> = arg(args, "--out").map(|s| s.to_string());
     let mut run_one = |chooser: &mut dyn Chooser, st: &mut Stats, label: &str| -> Outcome {
         DBG.lock().unwrap().clear();
+        *RUNTIME_PANIC.lock().unwrap_or_else(|p| p.into_inner()) = None;
         let inst = builder(ctl, &params);
         let Instance { opts, actors, mut custom, check, mut unstick } = inst;
         eprintln!("RUN {label}");
@@ -223,7 +224,8 @@ pub fn main(args: &[String]) -> i32 {
         };
         let mut viol = viol;
         if let Some(p) = rt_panic {
-            viol.insert(0, Violation { kind: "runtime_panic".into(), detail: p });
+            let kind = if p.starts_with("use after free") { "use_after_free" } else { "runtime_panic" };
+            viol.insert(0, Violation { kind: kind.into(), detail: p });
         }
         for v in viol {
             let id = format!("{}_{}_{:016x}", scen_name, v.kind, hash_sched(&out.schedule));
